@@ -72,6 +72,8 @@ type vdrEnt struct {
 	Dest   string `json:"d,omitempty"`
 	// the other logical names getLogicalFileNames gives for the link
 	Alts []string `json:"a,omitempty"`
+	// content hash of a regular file below a job's files/ or tmp/ directory (full snapshots only)
+	Hash uint32 `json:"h,omitempty"`
 }
 
 // sizeAsWalked: the size the VDR code records for the entry (a symbolic
@@ -282,6 +284,19 @@ func (v *vdrRun) snapshot(full bool) *vdrSnapshot {
 		if _, _, ok := stageRegion(rel); ok {
 			if _, seen := v.ever[rel]; !seen {
 				v.ever[rel] = e
+			}
+		}
+	}
+	if full {
+		for rel, e := range s.Tree {
+			if e.Kind != "f" {
+				continue
+			}
+			if _, _, ok := stageRegion(rel); ok {
+				if b, err := os.ReadFile(path.Join(v.psdir, rel)); err == nil {
+					e.Hash = uint32(hash64("content", string(b)))%1000000007 + 1
+					s.Tree[rel] = e
+				}
 			}
 		}
 	}
@@ -597,6 +612,7 @@ func (v *vdrRun) outsHook(job *TAJob, outs map[string]interface{}) {
 			outs[k] = canon(outs[k])
 		}
 	}
+	v.moreShapes(job, stage, params, outs)
 	v.escapeNames(job, outs)
 	// unreferenced material: a directory tree under files/ and files in tmp/
 	rng := rand.New(rand.NewSource(int64(hash64("vdr-extra", job.Key))))
